@@ -18,6 +18,7 @@ type Template struct {
 	Drives    []Drive
 	MayReject bool   // the compiler may reject it with a diagnostic (C12); if it accepts, behaviour must agree
 	Finding   string // id of the known finding this template is the witness of ("" = must agree)
+	Sibling   string // a SECOND file of the package, which does not import the co package (macros as in Src)
 	Imports   string // extra imports needed by the source
 }
 
@@ -2089,6 +2090,18 @@ GEN(int) @G() {
 	}
 	RETURN
 }`, Drives: []Drive{gen("int", "@G", "")}},
+
+	{Name: "ConsumerInFileWithoutCoImport", Props: []string{"C11", "C06"}, Finding: "D31", Src: `
+GEN(int) @Nums(n int) {
+	for i := 0; i < n; i++ { YIELD(i) }
+	RETURN
+}`, Sibling: `
+// this file ranges over an iterator but never names the co package, so it does not import it
+func @Sum(n int) int {
+	s := 0
+	RANGEITER(v, :=, GENCALL(int, @Nums, n)) { s += v }
+	return s
+}`, Drives: []Drive{fn("int", "@Sum", "4")}},
 
 	{Name: "PartialRedeclarationAcrossYield", Props: []string{"C03", "C01"}, Finding: "D30", Src: `
 // 'b, err := ...' after a yield: err was declared earlier in the SAME block, so := assigns to it (only b is new)
